@@ -32,6 +32,45 @@ pub fn build(run: &Run, lane: &str) -> Option<String> {
     }
 }
 
+/// AddressSanitizer lane for the properties that run in-process: the property's own quick workload (same generators, same
+/// oracles) is executed once more by the ASan build of the harness, in a scratch root so that evidence and replay files of
+/// the real run are not touched. An ASan report is a violation of `run.prop` (memory error while the property's workload ran:
+/// whatever the call returned cannot be trusted); oracle verdicts of the inner run are ignored here (the outer run judges them).
+pub fn asan_rerun(run: &Run) {
+    let Some(exe) = build(run, "asan") else { return };
+    let root = format!("{}/target-asan/rerun-root-{}", harness_dir(), run.prop);
+    let _ = std::fs::remove_dir_all(&root);
+    let _ = std::fs::create_dir_all(format!("{}/harness/target", root));
+    let _ = std::fs::copy(format!("{}/KNOWN_FINDINGS.txt", crate::run::verif_root()), format!("{}/KNOWN_FINDINGS.txt", root));
+    let t0 = std::time::Instant::now();
+    let mut cmd = Command::new(&exe);
+    cmd.arg(&run.prop[..]).arg("quick").env("VERIF_ROOT", &root).env("VERIF_SEED", run.seed.to_string()).env("VERIF_BUDGET_SCALE", "0.5");
+    for (k, v) in env_for("asan", &exe) { cmd.env(k, v); }
+    match cmd.output() {
+        Err(e) => { run.lane(json!({"lane": "asan-rerun", "ran": false, "error": e.to_string()})); }
+        Ok(o) => {
+            let stdout = String::from_utf8_lossy(&o.stdout).to_string();
+            let stderr = String::from_utf8_lossy(&o.stderr).to_string();
+            let summary = stdout.lines().rev().find(|l| l.starts_with(&run.prop[..])).unwrap_or("").to_string();
+            if let Some(pos) = stderr.find("ERROR: AddressSanitizer") {
+                let rep: Vec<&str> = stderr[pos..].lines().take(60).collect();
+                let kind = rep[0].split("AddressSanitizer: ").nth(1).and_then(|s| s.split_whitespace().next()).unwrap_or("report").to_string();
+                let frame = rep.iter().find(|l| l.contains("pdf/src/")).or_else(|| rep.iter().find(|l| l.contains("/registry/"))).map(|l| l.trim().to_string()).unwrap_or_default();
+                let where_ = frame.rsplit(' ').next().unwrap_or("").rsplit("/").take(3).collect::<Vec<_>>().into_iter().rev().collect::<Vec<_>>().join("/");
+                let sig = format!("{}|asan|{}|{}", run.prop, kind, crate::panicmon::template(&where_));
+                run.violation(&sig, &format!("AddressSanitizer report while the quick workload ran under the ASan build: {} ; {}", rep[0], frame), json!({"report_head": rep}));
+            } else if summary.is_empty() {
+                run.lane(json!({"lane": "asan-rerun", "ran": false, "exit": o.status.code(), "stderr_tail": stderr.lines().rev().take(6).collect::<Vec<_>>()}));
+                println!("note: asan-rerun lane did not complete (inconclusive for that lane)");
+                return;
+            }
+            run.lane(json!({"lane": "asan-rerun", "ran": true, "inner_summary": summary, "wall_s": t0.elapsed().as_secs_f64()}));
+            run.add("asan_rerun_completed", 1);
+        }
+    }
+    let _ = std::fs::remove_dir_all(&root);
+}
+
 pub fn env_for(lane: &str, exe: &str) -> Vec<(String, String)> {
     let mut v = vec![("VERIF_WORKER_EXE".to_string(), exe.to_string())];
     match lane {
